@@ -796,6 +796,8 @@ impl<Key, Value> CacheD<Key, Value>
         (snapshot, total, shards)
     }
 
+    pub fn verif_store_shard_of(&self, key: &Key) -> usize { self.store.verif_shard_of(key, self.config.shards) }
+
     pub fn verif_command_queue_len(&self) -> usize { self.command_executor.verif_queue_len() }
 
     pub fn verif_buffer_queue_len(&self) -> usize { self.admission_policy.verif_buffer_queue_len() }
